@@ -1,10 +1,968 @@
 // C11 harness, part 2: iterators held across mutations (see coq/C11/ModelIt.v).
+//
+//	--extra held[:corpus.jsonl]  histories with held ConstIterator objects, written as Coq
+//	                             case files held_<k>.v for CorrIt.mism_it (+ held.jsonl, held.meta.json);
+//	                             with --replay <{"case":...}> : heldreplay_0.v for that one history
+//	--extra heldhunt             property-level oracle on the implementation (no Coq model) + shrinking,
+//	                             writes heldhunt.json; --replay <{"cases":[...]}> tries those first
+//	--extra heldknown            replays the witness of C11-STALEIT, writes heldknown.json
+//
+// Iterator operations reuse the Op struct: ItBegin{T vec}, ItFrom{T vec, I from},
+// ItNext{W iterator, T its vector (redundant)}, ItGet{W iterator, T its vector}.
 package main
 
 import (
+	"encoding/json"
+	"fmt"
+	"os"
+	"strings"
+
 	. "adharness/common"
+
+	ad "github.com/pbenner/autodiff"
 )
 
+const (
+	mAttached = 0
+	mDetached = 1
+	mUnknown  = 2
+)
+
+// heldIt: a held iterator object plus the harness' mirror of the model's status
+// (ModelIt.v: imd / ifresh) used by the generator, and the oracle's bookkeeping.
+type heldIt struct {
+	it       ad.VectorConstIterator
+	vec      int
+	mode     int
+	fresh    bool
+	byConstr bool // attached by construction: no index-replacing op on vec since creation
+	edits    int  // steps that changed the index key list of vec since the iterator's last own move
+}
+
+type HWorld struct {
+	World
+	Its []*heldIt
+}
+
+func isItOp(o Op) bool {
+	return o.Op == "ItBegin" || o.Op == "ItFrom" || o.Op == "ItNext" || o.Op == "ItGet"
+}
+
+// itObs: Ok / Index / GetConst of an iterator: [0] or [1, key, present, value]
+func itObs(it ad.VectorConstIterator) []int64 {
+	if !it.Ok() {
+		return []int64{0}
+	}
+	k := int64(it.Index())
+	g := it.GetConst()
+	if g == nil {
+		return []int64{1, k, 0, 0}
+	}
+	return []int64{1, k, 1, int64(g.GetFloat64())}
+}
+
+func (w *HWorld) exec(o Op) (kind int64, payload []int64) {
+	if !isItOp(o) {
+		return w.World.execOne(o)
+	}
+	payload = []int64{}
+	defer func() {
+		if r := recover(); r != nil {
+			kind = K_PANIC
+			payload = []int64{}
+		}
+	}()
+	switch o.Op {
+	case "ItBegin":
+		it := w.V[o.T].ConstIterator()
+		w.Its = append(w.Its, &heldIt{it: it, vec: o.T, fresh: true, byConstr: true})
+		payload = itObs(it)
+	case "ItFrom":
+		it := w.V[o.T].ConstIteratorFrom(int(o.I))
+		w.Its = append(w.Its, &heldIt{it: it, vec: o.T, fresh: true, byConstr: true})
+		payload = itObs(it)
+	case "ItNext":
+		h := w.Its[o.W]
+		h.it.Next()
+		payload = itObs(h.it)
+	case "ItGet":
+		payload = itObs(w.Its[o.W].it)
+	}
+	return
+}
+
+// touches mirrors ModelIt.touches
+func touches(o Op) []int {
+	switch o.Op {
+	case "At", "SetAt", "Swap", "Iterate", "IterPart", "IterFrom", "ReverseOrder", "Sort", "Permute":
+		return []int{o.T}
+	case "SetV", "Joint":
+		if o.U >= 0 {
+			return []int{o.T, o.U}
+		}
+		return []int{o.T}
+	case "SETV":
+		return []int{o.T, o.U}
+	case "AppendV":
+		return []int{o.U}
+	case "Joint3":
+		r := []int{o.T}
+		if o.U >= 0 {
+			r = append(r, o.U)
+		}
+		if o.W >= 0 {
+			r = append(r, o.W)
+		}
+		return r
+	}
+	return nil
+}
+
+func sameKeys(a, b []int64) bool { return eqList(a, b) }
+
+// noNull: every index key of the vector has a non-zero value (an iteration deletes nothing)
+func noNull(o VecObs) bool {
+	val := map[int64]int64{}
+	for i, k := range o.Keys {
+		val[k] = o.Vals[i]
+	}
+	for _, k := range o.Index {
+		if x, ok := val[k]; !ok || x == 0 {
+			return false
+		}
+	}
+	return true
+}
+
+// mirror updates the status mirror after operation o ran (pre/post: observations
+// around it, kind: its outcome); mirrors ModelIt.step_it.
+func (w *HWorld) mirror(o Op, kind int64, pre, post []VecObs) {
+	clear := func(ts []int, except *heldIt) {
+		for _, h := range w.Its {
+			if h == except {
+				continue
+			}
+			for _, t := range ts {
+				if h.vec == t {
+					h.fresh = false
+				}
+			}
+		}
+	}
+	detach := func(t int, clean bool) {
+		for _, h := range w.Its {
+			if h.vec != t {
+				continue
+			}
+			h.byConstr = false
+			if h.mode == mAttached && h.it.Ok() {
+				if h.fresh && clean {
+					h.mode = mDetached
+				} else {
+					h.mode = mUnknown
+				}
+				h.fresh = false
+			}
+		}
+	}
+	moved := func(t int) []int {
+		if t < len(pre) && len(pre[t].Index) == len(post[t].Index) {
+			return nil
+		}
+		return []int{t}
+	}
+	switch o.Op {
+	case "ItBegin", "ItFrom":
+		if kind == K_OK {
+			h := w.Its[len(w.Its)-1]
+			clear(moved(o.T), h)
+			h.fresh = len(moved(o.T)) == 0
+		}
+	case "ItNext":
+		h := w.Its[o.W]
+		clear(moved(h.vec), h)
+		// skip() deletes key i AFTER stepping past it: the deletion may rotate / value-swap
+		// the node the iterator now sits on
+		h.fresh = h.mode == mAttached && len(moved(h.vec)) == 0
+	case "ItGet":
+	case "ReverseOrder":
+		detach(o.T, true)
+	case "Sort":
+		detach(o.T, noNull(pre[o.T]))
+	case "Permute":
+		if kind == K_OK {
+			detach(o.T, true)
+		} else {
+			clear([]int{o.T}, nil)
+		}
+	default:
+		clear(touches(o), nil)
+	}
+}
+
+// ---------------------------------------------------------------- Coq printing
+
+func coqOpIt(o Op) string {
+	switch o.Op {
+	case "ItBegin":
+		return fmt.Sprintf("ItBegin %d", o.T)
+	case "ItFrom":
+		return fmt.Sprintf("ItFrom %d %s", o.T, Z(o.I))
+	case "ItNext":
+		return fmt.Sprintf("ItNext %d", o.W)
+	case "ItGet":
+		return fmt.Sprintf("ItGet %d", o.W)
+	}
+	return "Base (" + coqOp(o) + ")"
+}
+func coqCaseIt(c Case) string {
+	ops := make([]string, len(c.Ops))
+	for i, o := range c.Ops {
+		ops[i] = coqOpIt(o)
+	}
+	outs := make([]string, len(c.Outs))
+	for i, o := range c.Outs {
+		outs[i] = fmt.Sprintf("(%s, %s, %s)", Z(o.K), ZList(o.P), Z(o.H))
+	}
+	return "(" + List(ops) + ",\n   " + List(outs) + ")"
+}
+
+const hdrIt = "From Coq Require Import ZArith List Bool. Import ListNotations.\nFrom ADV Require Import C11.Model C11.ModelIt C11.CorrIt.\nOpen Scope Z_scope.\n"
+
+const ruleIt = "random histories (<= ~60 steps, 1-4 sparse vectors of dim 3..12 (+Append), values -8..8, element type drawn from all nine sparse types) in which up to 6 ConstIterator()/ConstIteratorFrom(i) objects are HELD and moved (ItNext) / observed (ItGet: Ok, Index, GetConst) between mutations of their vector: SetAt (zero half of the time) and At at / before / after the cursor, Swap, Set(dense|sparse), full / partial / from iterations by somebody else (skip deletions under the held iterator), AppendVector iterating the vector as argument, JointIterator, Reset, Map, moves of other iterators on the same vector, moves of exhausted iterators, and the index-replacing ReverseOrder / Sort / Permute (Detached predictions: the iterator walks the snapshot of the old keys); every history ends by draining every iterator and iterating every vector. The generator mirrors the model's freshness flag and never MOVES an iterator the model calls Unknown (index replaced after an in-place index edit since the iterator's last move: outcome depends on AVL internals); such iterators are still observed with ItGet. A case is non-trivial iff >= 1 attached live iterator was moved after >= 2 steps that changed the key list of its vector since its previous move, and >= 1 skip() deletion happened under a live held iterator (by the held iterator itself on ItNext, or by somebody else's iteration while an attached live iterator sat on that vector); distinct = distinct (type, op list)"
+
+// ---------------------------------------------------------------- generator
+
+type heldStats struct {
+	movedAfterEdits, skipOwn, skipUnder, detachedMoves int
+}
+
+func (s heldStats) nontrivial() bool {
+	return s.movedAfterEdits >= 1 && (s.skipOwn >= 1 || s.skipUnder >= 1)
+}
+
+func genNewHeld(r *Rng) Op {
+	n := r.Range(3, 12)
+	var ks, xs []int64
+	p := r.Range(2, 4) // density p/5
+	for i := 0; i < n; i++ {
+		if r.Intn(5) < p {
+			ks = append(ks, int64(i))
+			x := int64(r.Range(-8, 8))
+			if x == 0 {
+				x = 3
+			}
+			xs = append(xs, x)
+		}
+	}
+	for i := len(ks) - 1; i > 0; i-- {
+		j := r.Intn(i + 1)
+		ks[i], ks[j] = ks[j], ks[i]
+		xs[i], xs[j] = xs[j], xs[i]
+	}
+	return Op{Op: "New", L: ks, L2: xs, I: int64(n)}
+}
+
+func lostKey(pre, post []int64) bool {
+	have := map[int64]bool{}
+	for _, k := range post {
+		have[k] = true
+	}
+	for _, k := range pre {
+		if !have[k] {
+			return true
+		}
+	}
+	return false
+}
+
+func iterationOp(o Op) bool {
+	switch o.Op {
+	case "ItNext", "ItBegin", "ItFrom", "Iterate", "IterPart", "IterFrom", "SetV", "SETV", "Joint", "Joint3", "AppendV", "Sort":
+		return true
+	}
+	return false
+}
+
+func genHeld(r *Rng, tn string, cw *CaseWriter) (Case, heldStats) {
+	var st heldStats
+	w := &HWorld{World: World{Type: tn}}
+	c := Case{Type: tn}
+	emit := func(o Op) {
+		pre, _ := w.observe()
+		var mover *heldIt
+		wasOk := false
+		if o.Op == "ItNext" {
+			mover = w.Its[o.W]
+			wasOk = mover.it.Ok()
+			if cw != nil {
+				switch {
+				case !wasOk:
+					cw.Count("it:move-exhausted")
+				case mover.mode == mAttached:
+					cw.Count("it:move-attached")
+				case mover.mode == mDetached:
+					cw.Count("it:move-detached")
+					st.detachedMoves++
+				default:
+					cw.Count("it:move-UNKNOWN(generator bug)")
+				}
+			}
+			if wasOk && mover.mode == mAttached && mover.edits >= 2 {
+				st.movedAfterEdits++
+				if cw != nil {
+					cw.Count("it:moved-after>=2-index-edits")
+				}
+			}
+		}
+		if o.Op == "ItGet" && cw != nil {
+			h := w.Its[o.W]
+			if h.mode == mUnknown {
+				cw.Count("it:get-unknown")
+			}
+		}
+		k, p := w.exec(o)
+		post, hsh := w.observe()
+		c.Ops = append(c.Ops, o)
+		c.Outs = append(c.Outs, Out{k, p, hsh})
+		w.mirror(o, k, pre, post)
+		// index edits / skip deletions per vector
+		for t := range pre {
+			if t >= len(post) {
+				break
+			}
+			changed := !sameKeys(pre[t].Index, post[t].Index)
+			if changed {
+				for _, h := range w.Its {
+					if h.vec == t && h != mover {
+						h.edits++
+					}
+				}
+			}
+			if iterationOp(o) && lostKey(pre[t].Index, post[t].Index) {
+				if mover != nil && mover.vec == t && wasOk {
+					st.skipOwn++
+					if cw != nil {
+						cw.Count("it:skip-deletion-by-held-iterator")
+					}
+				}
+				for _, h := range w.Its {
+					if h.vec == t && h != mover && h.mode == mAttached && h.it.Ok() {
+						st.skipUnder++
+						if cw != nil {
+							cw.Count("it:skip-deletion-under-live-iterator")
+						}
+						break
+					}
+				}
+			}
+		}
+		if mover != nil {
+			mover.edits = 0
+		}
+		if cw != nil {
+			cw.Count("op:" + o.Op)
+			if int(k) < 3 {
+				cw.Count([]string{"outcome:ok", "outcome:panic", "outcome:error"}[k])
+			}
+		}
+	}
+	nv := r.Range(1, 2)
+	for i := 0; i < nv; i++ {
+		emit(genNewHeld(r))
+	}
+	emit(Op{Op: "ItBegin", T: 0})
+	liveOn := func(t int) []*heldIt {
+		var l []*heldIt
+		for _, h := range w.Its {
+			if h.vec == t && h.it.Ok() && h.mode != mUnknown {
+				l = append(l, h)
+			}
+		}
+		return l
+	}
+	n := r.Range(14, 40)
+	for step := 0; step < n; step++ {
+		obs, _ := w.observe()
+		// prefer vectors that carry a live iterator
+		t := r.Intn(len(w.V))
+		if len(liveOn(t)) == 0 && r.Intn(3) != 0 {
+			for _, h := range w.Its {
+				if h.it.Ok() && h.mode != mUnknown {
+					t = h.vec
+					break
+				}
+			}
+		}
+		d := w.V[t].Dim()
+		live := liveOn(t)
+		pos := func() int64 {
+			if d <= 0 {
+				return 0
+			}
+			x := int64(r.Intn(d))
+			if len(live) > 0 {
+				cur := int64(live[r.Intn(len(live))].it.Index())
+				switch r.Intn(6) {
+				case 0:
+					x = cur
+				case 1:
+					x = cur + 1
+				case 2:
+					if cur > 0 {
+						x = int64(r.Intn(int(cur)))
+					}
+				case 3:
+					if int(cur)+1 < d {
+						x = cur + 1 + int64(r.Intn(d-int(cur)-1))
+					}
+				case 4:
+					x = cur + 2
+				}
+			}
+			if x < 0 {
+				x = 0
+			}
+			if x >= int64(d) {
+				x = int64(d) - 1
+			}
+			return x
+		}
+		//           0  1   2  3   4  5  6  7  8  9 10 11 12 13
+		wts := []int{3, 3, 16, 4, 12, 4, 4, 2, 4, 3, 2, 1, 2, 1}
+		if len(w.Its) >= 6 {
+			wts[0], wts[1] = 0, 0
+		}
+		if len(w.V) >= 4 {
+			wts[10] = 0
+		}
+		if d <= 0 {
+			wts[4], wts[5], wts[6], wts[13] = 0, 0, 0, 0
+		}
+		switch r.Pick(wts) {
+		case 0:
+			emit(Op{Op: "ItBegin", T: t})
+		case 1:
+			emit(Op{Op: "ItFrom", T: t, I: int64(r.Range(-1, d+1))})
+		case 2:
+			var cand []int
+			for k, h := range w.Its {
+				if h.mode == mUnknown && h.it.Ok() {
+					continue // the model makes no prediction for this move
+				}
+				if h.it.Ok() {
+					cand = append(cand, k, k, k, k, k, k)
+				} else {
+					cand = append(cand, k)
+				}
+			}
+			if len(cand) > 0 {
+				k := cand[r.Intn(len(cand))]
+				emit(Op{Op: "ItNext", W: k, T: w.Its[k].vec})
+			}
+		case 3:
+			k := r.Intn(len(w.Its))
+			emit(Op{Op: "ItGet", W: k, T: w.Its[k].vec})
+		case 4:
+			x := int64(0)
+			if r.Bool() {
+				x = int64(r.Range(-8, 8))
+			}
+			emit(Op{Op: "SetAt", T: t, I: pos(), X: x})
+		case 5:
+			emit(Op{Op: "At", T: t, I: pos()})
+		case 6:
+			emit(Op{Op: "Swap", T: t, I: pos(), J: pos()})
+		case 7:
+			u, l := genOperand(r, &w.World, t, d)
+			emit(Op{Op: "SetV", T: t, U: u, L: l})
+		case 8:
+			switch r.Intn(3) {
+			case 0:
+				emit(Op{Op: "Iterate", T: t})
+			case 1:
+				emit(Op{Op: "IterPart", T: t, I: int64(r.Range(0, 3))})
+			case 2:
+				emit(Op{Op: "IterFrom", T: t, I: int64(r.Range(-1, d+1))})
+			}
+		case 9:
+			// index-replacing op; usually move a live attached iterator first so that it is fresh
+			if len(live) > 0 && r.Intn(4) != 0 {
+				pick := live[r.Intn(len(live))]
+				for k, h := range w.Its {
+					if h == pick {
+						emit(Op{Op: "ItNext", W: k, T: h.vec})
+						break
+					}
+				}
+				obs, _ = w.observe()
+			}
+			switch r.Intn(3) {
+			case 0:
+				emit(Op{Op: "ReverseOrder", T: t})
+			case 1:
+				if hasDupNonzero(obs[t]) && sharesCells(obs, t) {
+					emit(Op{Op: "ReverseOrder", T: t}) // unstable sort.Sort on shared equal cells: outside the model
+				} else {
+					emit(Op{Op: "Sort", T: t, B: r.Bool()})
+				}
+			case 2:
+				if d >= 0 {
+					emit(Op{Op: "Permute", T: t, L: perm(r, d)})
+				}
+			}
+		case 10:
+			u := r.Intn(len(w.V))
+			if r.Bool() {
+				u, t = t, u // the vector carrying the iterator is the ARGUMENT (iterated by APPEND)
+			}
+			if w.V[t].Dim()+w.V[u].Dim() <= maxDim {
+				emit(Op{Op: "AppendV", T: t, U: u})
+			}
+		case 11:
+			u, l := genOperand(r, &w.World, t, d)
+			emit(Op{Op: "Joint", T: t, U: u, L: l})
+		case 12:
+			if r.Intn(3) == 0 {
+				emit(Op{Op: "Reset", T: t})
+			} else if maxAbsOf(obs[t])*2 <= maxAbs {
+				emit(Op{Op: "MapMul", T: t, X: int64(r.Range(-1, 2))})
+			}
+		case 13:
+			emit(Op{Op: "ConstAt", T: t, I: pos()})
+		}
+	}
+	// drain every iterator the model predicts, then iterate every vector
+	for k, h := range w.Its {
+		if h.mode == mUnknown && h.it.Ok() {
+			emit(Op{Op: "ItGet", W: k, T: h.vec})
+			if cw != nil {
+				cw.Count("it:final-unknown")
+			}
+			continue
+		}
+		if h.mode == mDetached && cw != nil {
+			cw.Count("it:final-detached")
+		}
+		for g := 0; g < 64 && h.it.Ok(); g++ {
+			emit(Op{Op: "ItNext", W: k, T: h.vec})
+		}
+		emit(Op{Op: "ItNext", W: k, T: h.vec}) // Next on the exhausted iterator
+	}
+	for t := range w.V {
+		emit(Op{Op: "Iterate", T: t})
+	}
+	return c, st
+}
+
+func executeIt(c Case) []Out {
+	w := &HWorld{World: World{Type: c.Type}}
+	outs := make([]Out, 0, len(c.Ops))
+	for i, o := range c.Ops {
+		k, p := w.exec(o)
+		obs, h := w.observe()
+		outs = append(outs, Out{k, p, h})
+		if os.Getenv("HELD_DEBUG") != "" { // diagnosis: the full observation after every step
+			for t := range obs {
+				fmt.Fprintf(os.Stderr, "step %d %s vec %d: %v\n", i, o.Op, t, obs[t].Flat)
+			}
+			for q, h := range w.Its {
+				fmt.Fprintf(os.Stderr, "   it %d: %v\n", q, itObs(h.it))
+			}
+		}
+	}
+	return outs
+}
+
+// ---------------------------------------------------------------- oracle (heldhunt)
+
+func wellFormedIt(ops []Op) bool {
+	if !wellFormed(ops) {
+		return false
+	}
+	m := 0
+	for _, o := range ops {
+		switch o.Op {
+		case "ItBegin", "ItFrom":
+			m++
+		case "ItNext", "ItGet":
+			if o.W < 0 || o.W >= m {
+				return false
+			}
+		}
+	}
+	return true
+}
+
+func firstNonzeroFrom(reads []int64, from int64) (int64, int64, bool) {
+	for i, x := range reads {
+		if int64(i) >= from && x != 0 {
+			return int64(i), x, true
+		}
+	}
+	return 0, 0, false
+}
+
+// heldCheck runs the history on the implementation and checks, independent of
+// the Coq model: (1) no iterator operation changes an element or a dimension;
+// (2) ItBegin / ItFrom(i) position the iterator on the first non-zero position
+// (>= i) of the dense reads (ConstAt of every index) taken just before; (3) every
+// Next of an iterator that is attached by construction (no successful
+// ReverseOrder / Sort / Permute on its vector since it was created) moves it to
+// the first non-zero position beyond its cursor of the dense reads at that time
+// and reports that value, an exhausted iterator stays exhausted; (4) after the
+// history, draining every such iterator yields exactly the ascending non-zero
+// positions beyond its cursor; (5) the coherence invariant of every vector (hook
+// dump) after every step.
+func heldCheck(c Case) (fail string, at int) {
+	if !wellFormedIt(c.Ops) {
+		return "", -1
+	}
+	defer func() {
+		if r := recover(); r != nil {
+			fail, at = fmt.Sprintf("harness-level panic: %v", r), -1
+		}
+	}()
+	w := &HWorld{World: World{Type: c.Type}}
+	for k, o := range c.Ops {
+		pre, _ := w.observe()
+		sh := make([][]int64, len(pre))
+		for i := range pre {
+			sh[i] = pre[i].Reads
+		}
+		if !isItOp(o) && !inRange(o, sh) {
+			return "", -1
+		}
+		if (o.Op == "ItNext" || o.Op == "ItGet") && w.Its[o.W].vec != o.T {
+			o.T = w.Its[o.W].vec
+		}
+		var h *heldIt
+		wasOk, cur := false, int64(0)
+		if o.Op == "ItNext" {
+			h = w.Its[o.W]
+			wasOk = h.it.Ok()
+			if wasOk {
+				cur = int64(h.it.Index())
+			}
+		}
+		kind, p := w.exec(o)
+		if kind != K_OK {
+			return fmt.Sprintf("op %d %s with in-range arguments ended with outcome kind %d (1=panic, 2=error)", k, o.Op, kind), k
+		}
+		post, _ := w.observe()
+		for i := range post {
+			if f := checkVec(i, post[i], post[i].N); f != "" {
+				return fmt.Sprintf("after op %d %s: %s", k, o.Op, f), k
+			}
+		}
+		if isItOp(o) {
+			for i := range pre {
+				if pre[i].N != post[i].N || !eqList(pre[i].Reads, post[i].Reads) {
+					return fmt.Sprintf("op %d %s (an iterator operation) changed vector %d from %v to %v", k, o.Op, i, pre[i].Reads, post[i].Reads), k
+				}
+			}
+		}
+		expect := func(from int64) []int64 {
+			if j, x, ok := firstNonzeroFrom(pre[o.T].Reads, from); ok {
+				return []int64{1, j, 1, x}
+			}
+			return []int64{0}
+		}
+		switch o.Op {
+		case "ItBegin":
+			if e := expect(0); !eqList(p, e) {
+				return fmt.Sprintf("op %d ConstIterator() of %v starts at %v, expected %v ([ok,index,present,value])", k, pre[o.T].Reads, p, e), k
+			}
+		case "ItFrom":
+			if e := expect(o.I); !eqList(p, e) {
+				return fmt.Sprintf("op %d ConstIteratorFrom(%d) of %v starts at %v, expected %v", k, o.I, pre[o.T].Reads, p, e), k
+			}
+		case "ItNext":
+			if !wasOk {
+				if !eqList(p, []int64{0}) {
+					return fmt.Sprintf("op %d Next() revived an exhausted iterator: %v", k, p), k
+				}
+			} else if h.byConstr {
+				if e := expect(cur + 1); !eqList(p, e) {
+					return fmt.Sprintf("op %d Next() of a held iterator at cursor %d on %v moved to %v; the remaining non-zero positions of the current state give %v ([ok,index,present,value])", k, cur, pre[o.T].Reads, p, e), k
+				}
+			}
+		case "ReverseOrder", "Sort", "Permute":
+			for _, x := range w.Its {
+				if x.vec == o.T {
+					x.byConstr = false
+				}
+			}
+		}
+	}
+	// final drains
+	obs, _ := w.observe()
+	for k, h := range w.Its {
+		if !h.byConstr || !h.it.Ok() {
+			continue
+		}
+		cur := int64(h.it.Index())
+		exp := nonzero(obs[h.vec].Reads, cur+1)
+		got := []int64{}
+		for g := 0; g < 10000; g++ {
+			h.it.Next()
+			if !h.it.Ok() {
+				break
+			}
+			x := int64(C_NIL)
+			if s := h.it.GetConst(); s != nil {
+				x = int64(s.GetFloat64())
+			}
+			got = append(got, int64(h.it.Index()), x)
+		}
+		if !eqList(got, exp) {
+			return fmt.Sprintf("draining held iterator %d (cursor %d) after the history visits %v; the non-zero positions beyond the cursor of %v are %v", k, cur, got, obs[h.vec].Reads, exp), len(c.Ops)
+		}
+	}
+	return "", -1
+}
+
+// removeOpIt removes op k (creating ops: later uses of a removed iterator are
+// dropped with it and higher iterator handles renumbered; a vector-creating op
+// that is still used is not removable).
+func removeOpIt(ops []Op, k int) []Op {
+	o := ops[k]
+	if o.Op != "ItBegin" && o.Op != "ItFrom" {
+		return removeOp(ops, k)
+	}
+	h := 0
+	for _, x := range ops[:k] {
+		if x.Op == "ItBegin" || x.Op == "ItFrom" {
+			h++
+		}
+	}
+	var r []Op
+	for i, x := range ops {
+		if i == k {
+			continue
+		}
+		if i > k && (x.Op == "ItNext" || x.Op == "ItGet") {
+			if x.W == h {
+				continue
+			}
+			if x.W > h {
+				x.W--
+			}
+		}
+		r = append(r, x)
+	}
+	return r
+}
+
+func shrinkIt(c Case) Case {
+	fails := func(ops []Op) bool {
+		if ops == nil {
+			return false
+		}
+		f, _ := heldCheck(Case{Type: c.Type, Ops: ops})
+		return f != ""
+	}
+	ops := c.Ops
+	if _, at := heldCheck(c); at >= 0 && at+1 < len(ops) {
+		if fails(ops[:at+1]) {
+			ops = ops[:at+1]
+		}
+	}
+	for changed := true; changed; {
+		changed = false
+		for k := len(ops) - 1; k >= 0; k-- {
+			if k >= len(ops) {
+				continue
+			}
+			cand := removeOpIt(ops, k)
+			if fails(cand) {
+				ops = cand
+				changed = true
+			}
+		}
+	}
+	for k := range ops {
+		o := ops[k]
+		try := func(n Op) {
+			cand := append(append([]Op{}, ops[:k]...), n)
+			cand = append(cand, ops[k+1:]...)
+			if fails(cand) {
+				ops = cand
+			}
+		}
+		if o.Op == "SetAt" && o.X != 1 && o.X != 0 {
+			n := o
+			n.X = 1
+			try(n)
+		}
+		if o.Op == "New" {
+			for i := len(o.L) - 1; i >= 0; i-- {
+				cur := ops[k]
+				if i >= len(cur.L) {
+					continue
+				}
+				n := cur
+				n.L = append(cp(cur.L[:i]), cur.L[i+1:]...)
+				n.L2 = append(cp(cur.L2[:i]), cur.L2[i+1:]...)
+				try(n)
+			}
+		}
+	}
+	return Case{Type: c.Type, Ops: ops}
+}
+
+func heldHunt(o Opts) {
+	type res struct {
+		Found   bool   `json:"found"`
+		Failure string `json:"failure"`
+		At      int    `json:"at"`
+		Case    Case   `json:"case"`
+		Tried   int    `json:"tried"`
+	}
+	var r res
+	report := func(c Case) {
+		c.Outs = nil
+		c = shrinkIt(c)
+		f, at := heldCheck(c)
+		r.Found, r.Failure, r.At = true, f, at
+		r.Case = c
+	}
+	done := false
+	if o.Replay != "" {
+		if b, err := os.ReadFile(o.Replay); err == nil {
+			var rp struct {
+				Cases []Case `json:"cases"`
+				Case  *Case  `json:"case"`
+			}
+			json.Unmarshal(b, &rp)
+			if rp.Case != nil {
+				rp.Cases = append(rp.Cases, *rp.Case)
+			}
+			for _, c := range rp.Cases {
+				r.Tried++
+				if f, _ := heldCheck(c); f != "" {
+					report(c)
+					done = true
+					break
+				}
+			}
+		}
+	}
+	if !done {
+		rng := NewRng(o.Seed + 104729)
+		for k := 0; k < o.N && !done; k++ {
+			tn := typeNames[k%len(typeNames)]
+			c, _ := genHeld(rng.Split(), tn, nil)
+			r.Tried++
+			if f, _ := heldCheck(c); f != "" {
+				report(c)
+				done = true
+			}
+		}
+	}
+	b, _ := json.MarshalIndent(r, "", " ")
+	os.MkdirAll(o.Out, 0755)
+	os.WriteFile(o.Out+"/heldhunt.json", b, 0644)
+}
+
+// ---------------------------------------------------------------- known finding
+
+// heldKnown replays the witness of C11-STALEIT on the implementation (all nine types).
+func heldKnown(o Opts) {
+	type kf struct {
+		Id        string `json:"id"`
+		Confirmed bool   `json:"confirmed"`
+		Detail    string `json:"detail"`
+	}
+	conf := true
+	detail := ""
+	for _, tn := range typeNames {
+		w := &HWorld{World: World{Type: tn}}
+		w.exec(Op{Op: "New", L: []int64{0}, L2: []int64{5}, I: 3})
+		_, p0 := w.exec(Op{Op: "ItBegin", T: 0})
+		w.exec(Op{Op: "ReverseOrder", T: 0})
+		_, p1 := w.exec(Op{Op: "ItNext", W: 0, T: 0})
+		obs, _ := w.observe()
+		rd := obs[0].Reads
+		ok := eqList(p0, []int64{1, 0, 1, 5}) && eqList(p1, []int64{0}) && eqList(rd, []int64{0, 0, 5})
+		conf = conf && ok
+		if tn == "float64" || !ok {
+			detail += fmt.Sprintf("[%s] v=[5,0,0]; it:=v.ConstIterator() at %v; v.ReverseOrder() -> v reads %v; it.Next() -> %v ([0] = exhausted although position 2 > 0 holds 5; [ok,index,present,value]) ", tn, p0, rd, p1)
+		}
+	}
+	out := []kf{{"C11-STALEIT", conf, strings.TrimSpace(detail)}}
+	b, _ := json.MarshalIndent(out, "", " ")
+	os.MkdirAll(o.Out, 0755)
+	os.WriteFile(o.Out+"/heldknown.json", b, 0644)
+}
+
+// ---------------------------------------------------------------- main
+
 func heldMain(o Opts) {
-	Die("held mode not built yet")
+	mode, arg := o.Extra, ""
+	if i := strings.Index(o.Extra, ":"); i >= 0 {
+		mode, arg = o.Extra[:i], o.Extra[i+1:]
+	}
+	switch mode {
+	case "heldhunt":
+		heldHunt(o)
+		return
+	case "heldknown":
+		heldKnown(o)
+		return
+	case "held":
+	default:
+		Die("unknown --extra %s", o.Extra)
+	}
+	if o.Replay != "" {
+		b, err := os.ReadFile(o.Replay)
+		if err != nil {
+			Die("%v", err)
+		}
+		var rp struct {
+			Case Case `json:"case"`
+		}
+		if err := json.Unmarshal(b, &rp); err != nil {
+			Die("%v", err)
+		}
+		c := rp.Case
+		if !wellFormedIt(c.Ops) {
+			Die("replay: history names a vector / iterator that does not exist")
+		}
+		c.Outs = executeIt(c)
+		w := NewCaseWriter(o.Out, "heldreplay", hdrIt, "mism_it", 1000)
+		w.Type = "case_it"
+		w.Add(coqCaseIt(c), c, "replay", true)
+		w.Flush()
+		return
+	}
+	w := NewCaseWriter(o.Out, "held", hdrIt, "mism_it", 10)
+	w.Type = "case_it"
+	w.Rule = ruleIt
+	if arg != "" {
+		for _, c := range readCorpus(arg) {
+			if !wellFormedIt(c.Ops) {
+				Die("corpus: history names a vector / iterator that does not exist: %v", c.Ops)
+			}
+			c.Outs = executeIt(c)
+			w.Add(coqCaseIt(c), c, "corpus:"+fmt.Sprint(c.Ops), true)
+			w.Count("corpus")
+		}
+	}
+	rng := NewRng(o.Seed + 15485863)
+	for k := 0; k < o.N; k++ {
+		tn := typeNames[k%len(typeNames)]
+		if k%2 == 0 {
+			tn = typeNames[(k/2)%3]
+		}
+		c, st := genHeld(rng.Split(), tn, w)
+		w.Add(coqCaseIt(c), c, tn+fmt.Sprint(c.Ops), st.nontrivial())
+		w.Count("type:" + tn)
+		if st.detachedMoves > 0 {
+			w.Count("case:with-detached-moves")
+		}
+	}
+	if err := w.Flush(); err != nil {
+		Die("%v", err)
+	}
 }
